@@ -37,7 +37,7 @@ func TestMain(m *testing.M) { evid.Main(m, "C14") }
 const (
 	pageSize  = 65536
 	maxPages  = 65536
-	heavyPage = 1024 // Go-heap backed buffers above this many pages are "heavy" (zeroing/copy cost)
+	heavyPage = 256 // Go-heap backed buffers above this many pages are "heavy" (zeroing/copy cost)
 
 	findMemLen = "C14-compiler-memlen-32bit"
 	findWrap   = "C14-memory-accessor-u32-wrap"
@@ -54,6 +54,9 @@ type Config struct {
 	CapMax bool   `json:"cap_from_max"`
 	Alloc  string `json:"alloc"` // default | slice | mmap
 	Shared bool   `json:"shared,omitempty"`
+	// Imported: the memory is defined and exported by a second module "m" and imported by the
+	// guest (the compiler addresses an imported memory through a different path).
+	Imported bool `json:"imported,omitempty"`
 }
 
 // Op is one operation of a history, with explicit arguments.
@@ -75,7 +78,7 @@ type Case struct {
 }
 
 func (c Config) String() string {
-	return fmt.Sprintf("{engine=%s min=%d max=%d limit=%d capFromMax=%v alloc=%s shared=%v}", c.Engine, c.Min, c.Max, c.Limit, c.CapMax, c.Alloc, c.Shared)
+	return fmt.Sprintf("{engine=%s min=%d max=%d limit=%d capFromMax=%v alloc=%s shared=%v imported=%v}", c.Engine, c.Min, c.Max, c.Limit, c.CapMax, c.Alloc, c.Shared, c.Imported)
 }
 
 func (c Config) limit() uint32 {
@@ -312,8 +315,20 @@ func tinyModule(c Config) []byte {
 	return m.Encode()
 }
 
-func fullModule(c Config) []byte {
+// definerModule defines and exports the memory for the Imported variant.
+func definerModule(c Config) []byte {
 	m := &wasmenc.Module{Mems: [][]byte{limits(c)}}
+	m.Exports = append(m.Exports, wasmenc.Export{Name: "mem", Kind: wasmenc.KMem, Idx: 0})
+	return m.Encode()
+}
+
+func fullModule(c Config) []byte {
+	m := &wasmenc.Module{}
+	if c.Imported {
+		m.Imports = append(m.Imports, wasmenc.Import{Mod: "m", Name: "mem", Kind: wasmenc.KMem, Desc: limits(c)})
+	} else {
+		m.Mems = [][]byte{limits(c)}
+	}
 	hgrow := m.ImportFunc("env", "hgrow", []byte{i32}, []byte{i32})
 	m.Exports = append(m.Exports, wasmenc.Export{Name: "mem", Kind: wasmenc.KMem, Idx: 0})
 	m.ExportFunc("size", m.AddFunc(nil, []byte{i32}, nil, wasmenc.NewB().MemorySize().Bytes()))
@@ -321,9 +336,11 @@ func fullModule(c Config) []byte {
 	// vgrow(d) -> (host grow result, memory.size afterwards): growth by the host in the middle of a guest function
 	m.ExportFunc("vgrow", m.AddFunc([]byte{i32}, []byte{i32, i32}, nil,
 		wasmenc.NewB().LocalGet(0).Call(hgrow).MemorySize().Bytes()))
-	// vgrowld(d, addr) -> (host grow result, memory.size, load8_u addr)
-	m.ExportFunc("vgrowld", m.AddFunc([]byte{i32, i32}, []byte{i32, i32, i32}, nil,
-		wasmenc.NewB().LocalGet(0).Call(hgrow).MemorySize().LocalGet(1).Mem(wasmenc.OpI32Load8U, 0, 0).Bytes()))
+	// vgrowld(d, addr0, addr1) -> (memory.size, load8_u addr0, host grow result, memory.size, load8_u addr1):
+	// size and base are in use before the host call that grows the memory
+	m.ExportFunc("vgrowld", m.AddFunc([]byte{i32, i32, i32}, []byte{i32, i32, i32, i32, i32}, nil,
+		wasmenc.NewB().MemorySize().LocalGet(1).Mem(wasmenc.OpI32Load8U, 0, 0).
+			LocalGet(0).Call(hgrow).MemorySize().LocalGet(2).Mem(wasmenc.OpI32Load8U, 0, 0).Bytes()))
 	// gsl(addr0, v, d, addr1) -> (memory.size before, grow result, memory.size after, load8_u addr1, load8_u addr0)
 	m.ExportFunc("gsl", m.AddFunc([]byte{i32, i32, i32, i32}, []byte{i32, i32, i32, i32, i32}, nil,
 		wasmenc.NewB().MemorySize().
@@ -461,7 +478,16 @@ func open(c Config, wasm []byte) (in *instance, err error, internal string) {
 		in.close()
 		return nil, nil, "harness: host module: " + err.Error()
 	}
-	cm, err := in.rt.CompileModule(bg, wasm)
+	if c.Imported {
+		var dm wazero.CompiledModule
+		if dm, err = in.rt.CompileModule(bg, definerModule(c)); err == nil {
+			_, err = in.rt.InstantiateModule(ctx, dm, wazero.NewModuleConfig().WithName("m"))
+		}
+	}
+	var cm wazero.CompiledModule
+	if err == nil {
+		cm, err = in.rt.CompileModule(bg, wasm)
+	}
 	if err == nil {
 		in.mod, err = in.rt.InstantiateModule(ctx, cm, wazero.NewModuleConfig().WithName("g"))
 	}
@@ -690,7 +716,7 @@ func (r *runner) step(op Op) *failure {
 			}
 			return r.afterGrow(fmt.Sprintf("after host Memory.Grow(%d) from %d pages", op.D, prevPages), prevPages)
 		}
-	case "vgrow", "vgrowld":
+	case "vgrow":
 		prevPages := m.pages
 		want, wok := m.grow(op.D)
 		r.noteGrow(false, wok, op.D)
@@ -698,21 +724,9 @@ func (r *runner) step(op Op) *failure {
 		if wok {
 			wantR = want
 		}
-		var res []uint64
-		var o wz.Outcome
-		if op.K == "vgrow" {
-			res, o = in.call("vgrow", uint64(op.D))
-		} else {
-			res, o = in.call("vgrowld", uint64(op.D), uint64(op.Off))
-		}
+		res, o := in.call("vgrow", uint64(op.D))
 		desc := fmt.Sprintf("guest function calling a host function that does Memory.Grow(%d) at %d pages (bound %d)", op.D, prevPages, m.bound)
-		if op.K == "vgrowld" && !m.inRange(uint64(op.Off), 1) {
-			if o.Kind != wz.KTrap || o.Detail != oob {
-				return failf("%s then i32.load8_u(%#x) with %d pages: expected an out-of-bounds trap, got %v %v", desc, op.Off, m.pages, o, res)
-			}
-			return nil
-		}
-		if o.Kind != wz.KOK {
+		if o.Kind != wz.KOK || len(res) != 2 {
 			return failf("%s failed: %v", desc, o)
 		}
 		if uint32(res[0]) != wantR {
@@ -721,13 +735,42 @@ func (r *runner) step(op Op) *failure {
 		if uint32(res[1]) != m.pages {
 			return failf("%s: memory.size right after the host call = %d, model has %d pages", desc, uint32(res[1]), m.pages)
 		}
-		if op.K == "vgrowld" {
-			if w := m.get(uint64(op.Off)); byte(res[2]) != w || res[2] > 0xff {
-				return failf("%s: i32.load8_u(%#x) right after the host call = %#x, model has %#x", desc, op.Off, res[2], w)
+		if wok && op.D > 0 {
+			return r.afterGrow("after "+desc, prevPages)
+		}
+	case "vgrowld":
+		desc := fmt.Sprintf("guest memory.size; load8_u(%#x); call host function doing Memory.Grow(%d); memory.size; load8_u(%#x) at %d pages (bound %d)", op.Off, op.D, op.Off2, m.pages, m.bound)
+		res, o := in.call("vgrowld", uint64(op.D), uint64(op.Off), uint64(op.Off2))
+		if !m.inRange(uint64(op.Off), 1) {
+			if o.Kind != wz.KTrap || o.Detail != oob {
+				return failf("%s: expected an out-of-bounds trap at the first load, got %v %v", desc, o, res)
+			}
+			return nil
+		}
+		before := m.pages
+		want, wok := m.grow(op.D)
+		r.noteGrow(false, wok, op.D)
+		if !m.inRange(uint64(op.Off2), 1) {
+			if o.Kind != wz.KTrap || o.Detail != oob {
+				return failf("%s: expected an out-of-bounds trap at the second load (size now %d pages), got %v %v", desc, m.pages, o, res)
+			}
+			return nil
+		}
+		if o.Kind != wz.KOK || len(res) != 5 {
+			return failf("%s failed: %v", desc, o)
+		}
+		wantR := uint32(0xffffffff)
+		if wok {
+			wantR = want
+		}
+		exp := []uint32{before, uint32(m.get(uint64(op.Off))), wantR, m.pages, uint32(m.get(uint64(op.Off2)))}
+		for i := range exp {
+			if uint32(res[i]) != exp[i] {
+				return failf("%s: result %d = %d, expected %d (all results %v, expected %v)", desc, i, int32(res[i]), int32(exp[i]), res, exp)
 			}
 		}
 		if wok && op.D > 0 {
-			return r.afterGrow("after "+desc, prevPages)
+			return r.afterGrow("after "+desc, before)
 		}
 	case "gsl":
 		desc := fmt.Sprintf("guest store8(%#x,%#x); memory.grow(%d); memory.size; load8_u(%#x); load8_u(%#x) at %d pages (bound %d)", op.Off, byte(op.V), op.D, op.Off2, op.Off, m.pages, m.bound)
@@ -1207,6 +1250,9 @@ func genConfig(t *rapid.T) Config {
 	if c.Max >= 0 && c.Alloc != "slice" && rapid.IntRange(0, 5).Draw(t, "shared") == 0 {
 		c.Shared = true // needs a declared maximum; a moving allocator cannot back a shared memory
 	}
+	if c.verdict() == "accept" && rapid.IntRange(0, 3).Draw(t, "imported") == 0 {
+		c.Imported = true
+	}
 	return c
 }
 
@@ -1318,9 +1364,23 @@ func genOp(t *rapid.T, g *genState, c Config) Op {
 		op.D = genDelta(t, g, c)
 		noteGrow(op.D)
 	case "vgrowld":
-		op.D = genDelta(t, g, c)
-		noteGrow(op.D)
-		op.Off = genAddr(t, g, 1)
+		if g.pages > 0 && rapid.IntRange(0, 7).Draw(t, "addr0-any") != 0 {
+			op.Off = uint32(rapid.Uint64Range(0, g.size()-1).Draw(t, "addr0"))
+			if len(g.written) > 0 && rapid.Bool().Draw(t, "addr0-written") {
+				if w := rapid.SampledFrom(g.written).Draw(t, "w"); w < g.size() {
+					op.Off = uint32(w)
+				}
+			}
+		} else {
+			op.Off = genAddr(t, g, 1)
+		}
+		if uint64(op.Off) < g.size() {
+			op.D = genDelta(t, g, c)
+			noteGrow(op.D)
+		} else {
+			op.D = 1 // never executed: the first load traps
+		}
+		op.Off2 = genAddr(t, g, 1)
 	case "gsl":
 		op.Off = genAddr(t, g, 1)
 		op.V = uint64(rapid.IntRange(1, 255).Draw(t, "marker"))
@@ -1481,6 +1541,9 @@ func labelsOf(c Case, m *model, skipped bool) (bool, []string) {
 	if c.Cfg.Shared {
 		l = append(l, "shared")
 	}
+	if c.Cfg.Imported {
+		l = append(l, "imported-memory")
+	}
 	if len(m.mem) > 0 {
 		l = append(l, "with-written-pages")
 	}
@@ -1510,7 +1573,7 @@ func TestHistories(t *testing.T) {
 		t.Skip()
 	}
 	probes()
-	evid.Check(t, "histories", evid.Scale(6000, 400000), func(t *rapid.T) {
+	evid.Check(t, "histories", evid.Scale(16000, 1200000), func(t *rapid.T) {
 		c, _ := genCase(t)
 		evid.Journal(c)
 		f, m, skipped := runCase(c)
@@ -1597,6 +1660,9 @@ func fixedScript(c Config) []Op {
 	if mn > 0 {
 		ops = append(ops, Op{K: "hwrite", W: "32", Off: uint32(top - 4), V: 0xa1b2c3d4}, Op{K: "gload", W: "32", Off: uint32(top - 4)})
 	}
+	if mn > 0 && room == 0 {
+		ops = append(ops, Op{K: "vgrowld", D: 1, Off: uint32(top - 4), Off2: uint32(top - 1)})
+	}
 	ops = append(ops, Op{K: "hread", W: "8", Off: uint32(min64(top, math.MaxUint32))}, Op{K: "gload", W: "8", Off: uint32(min64(top, math.MaxUint32))})
 	grow := room
 	if !c.cheapGrow() && !c.CapMax && mn+grow > heavyPage {
@@ -1613,7 +1679,11 @@ func fixedScript(c Config) []Op {
 		if (mn+b)%2 == 1 {
 			k = "vgrow"
 		}
-		ops = append(ops, Op{K: k, D: grow})
+		if mn > 0 && k == "vgrow" {
+			ops = append(ops, Op{K: "vgrowld", D: grow, Off: uint32(top - 4), Off2: uint32(uint64(mn+grow)<<16 - 1)})
+		} else {
+			ops = append(ops, Op{K: k, D: grow})
+		}
 		ntop := uint64(mn+grow) << 16
 		ops = append(ops, Op{K: "gstore", W: "64", Off: uint32(ntop - 8), V: 0x1122334455667788}, Op{K: "hread", W: "64", Off: uint32(ntop - 8)},
 			Op{K: "hread", W: "16", Off: uint32(ntop - 1)}, Op{K: "gload", W: "16", Off: uint32(ntop - 1)})
@@ -1691,13 +1761,19 @@ func bigCases() []Case {
 			{K: "gload", W: "8", Off: 1, Imm: 3}, {K: "gload", W: "8", Off: 0, Imm: 3}}})
 		// capacity from max (no declared max: 4 GiB capacity), grow to the very end
 		cs = append(cs, Case{Cfg: Config{Engine: eng, Min: 65535, Max: -1, Limit: -1, CapMax: true, Alloc: "default"}, Ops: []Op{
-			{K: "hwrite", W: "32", Off: 0xfffefffc, V: 0x55667788}, {K: "gload", W: "8", Off: 0xffff0000}, {K: "ggrow", D: 2}, {K: "vgrowld", D: 1, Off: top},
+			{K: "hwrite", W: "32", Off: 0xfffefffc, V: 0x55667788}, {K: "gload", W: "8", Off: 0xffff0000}, {K: "ggrow", D: 2}, {K: "vgrowld", D: 1, Off: 0xfffefffc, Off2: top},
 			{K: "gload", W: "32", Off: 0xfffefffc}, {K: "hread", W: "64", Off: top - 7}, {K: "gstore", W: "16", Off: top - 1, V: 0xbeef},
 			{K: "hread", W: "16", Off: top - 1}, {K: "hgrow", D: 1}, {K: "ggrow", D: 1}}})
 		// declared max 65536 with shared memory (default allocator allocates the maximum)
 		cs = append(cs, Case{Cfg: Config{Engine: eng, Min: 65534, Max: 65536, Limit: -1, Alloc: "default", Shared: true}, Ops: []Op{
 			{K: "ggrow", D: 3}, {K: "hgrow", D: 1}, {K: "gsl", Off: 0xfffdffff, V: 0x5a, D: 1, Off2: 0xfffe0000}, {K: "vgrow", D: 1},
 			{K: "gload", W: "64", Off: top - 7}, {K: "hread", W: "8", Off: top}}})
+	}
+	for _, eng := range wz.Engines {
+		// imported memory of 65535 pages grown to the end (mmap allocator: no Go heap buffer)
+		cs = append(cs, Case{Cfg: Config{Engine: eng, Min: 65535, Max: -1, Limit: -1, Alloc: "mmap", Imported: true}, Ops: []Op{
+			{K: "gstore", W: "32", Off: 0xfffefffc, V: 0x55667788}, {K: "vgrowld", D: 1, Off: 0xfffefffc, Off2: top}, {K: "gload", W: "64", Off: top - 7},
+			{K: "hread", W: "32", Off: 0xfffefffc}, {K: "gsl", Off: top, V: 0x77, D: 1, Off2: top - 1}, {K: "hread", W: "8", Off: top}}})
 	}
 	if evid.Thorough() {
 		// growth by re-allocation at the 4 GiB end (copies 4 GiB: slow, thorough tier only)
